@@ -162,7 +162,7 @@ Proof.
   - cbn in E. inversion E; subst. cbn. auto.
   - cbn [forallb] in Hwf. apply andb_true_iff in Hwf as [Ho Hr].
     pose proof (ops_size_nonneg r) as Hnn.
-    destruct o as [xs | v | i v | i | | i | v | vs | | i v | i]; cbn [exec spec ops_size op_wf] in *.
+    destruct o as [xs | v | i v | i | | i | v | vs | ]; cbn [exec spec ops_size op_wf] in *.
     + apply (IH _ xs _ Hr (rt_of_list_inv xs)) in E; [exact E | lia].
     + apply (IH _ (l ++ [v]) _ Hr (rt_append_inv _ _ v Hinv)) in E; [exact E |].
       rewrite app_length, Nat2Z.inj_add. cbn. lia.
@@ -206,26 +206,6 @@ Proof.
     + (* call: read-only len *)
       apply (IH _ _ _ Hr Hinv) in E; [| lia]. rewrite println_all in E.
       unfold rt_len in E. destruct Hinv as [_ Hl]. rewrite Hl in E. exact E.
-    + (* call: set *)
-      unfold rt_len in E. destruct Hinv as [Hd Hl]. rewrite Hl in E.
-      rewrite index_i32_exact in E by (try exact Ho; lia).
-      destruct (valid_index (ix_val i) (Z.of_nat (length l))) eqn:V.
-      * assert (Hk : 0 <= norm_index (ix_val i) (Z.of_nat (length l)) < Z.of_nat (length l)).
-        { unfold valid_index in V. apply andb_true_iff in V as [V1 V2]. apply Z.leb_le in V1. apply Z.ltb_lt in V2.
-          unfold norm_index. destruct (Z.ltb_spec (ix_val i) 0); lia. }
-        destruct (rt_set_ok a l _ v (conj Hd Hl) Hk) as [a' [Es Hinv']]. rewrite Es in E.
-        apply (IH _ _ _ Hr Hinv') in E; [exact E |]. rewrite upd_length. lia.
-      * inversion E; subst. cbn. auto.
-    + (* call: get *)
-      unfold rt_len in E. destruct Hinv as [Hd Hl]. rewrite Hl in E.
-      rewrite index_i32_exact in E by (try exact Ho; lia).
-      destruct (valid_index (ix_val i) (Z.of_nat (length l))) eqn:V.
-      * assert (Hk : 0 <= norm_index (ix_val i) (Z.of_nat (length l)) < Z.of_nat (length l)).
-        { unfold valid_index in V. apply andb_true_iff in V as [V1 V2]. apply Z.leb_le in V1. apply Z.ltb_lt in V2.
-          unfold norm_index. destruct (Z.ltb_spec (ix_val i) 0); lia. }
-        rewrite (rt_get_ok a l _ (conj Hd Hl) Hk) in E.
-        apply (IH _ _ _ Hr (conj Hd Hl)) in E; [| lia]. rewrite println_all in E. exact E.
-      * inversion E; subst. cbn. auto.
 Qed.
 
 (* ---------------------------------------------------------------- the static tracker never mis-rejects *)
@@ -250,13 +230,15 @@ Lemma static_sound str : forall ops l out tr,
   tracked_ok tr l -> snd (spec str ops l out) = Exited -> static_ops tr ops = true.
 Proof.
   induction ops as [| o r IH]; intros l out tr Ht E; [reflexivity |].
-  destruct o as [xs | v | i v | i | | i | v | vs | | i v | i]; cbn [spec static_ops] in *.
+  destruct o as [xs | v | i v | i | | i | v | vs | ]; cbn [spec static_ops] in *.
   - eapply IH; [| exact E]. reflexivity.
   - eapply IH; [| exact E]. exact I.
   - destruct (valid_index (ix_val i) (Z.of_nat (length l))) eqn:V; [| discriminate].
+    destruct (is_direct i); [| eapply IH; [| exact E]; exact I].
     rewrite (static_index_ok_valid tr l i Ht V). cbn. eapply IH; [| exact E].
     destruct tr; cbn in *; [rewrite upd_length; exact Ht | exact I].
   - destruct (valid_index (ix_val i) (Z.of_nat (length l))) eqn:V; [| discriminate].
+    destruct (is_direct i); [| eapply IH; [| exact E]; exact I].
     rewrite (static_index_ok_valid tr l i Ht V). cbn. eapply IH; [exact Ht | exact E].
   - eapply IH; [exact Ht | exact E].
   - destruct (valid_index (ix_val i) (Z.of_nat (length str))) eqn:V; [| discriminate].
@@ -264,10 +246,6 @@ Proof.
   - eapply IH; [exact Ht | exact E].
   - eapply IH; [| exact E]. exact I.
   - eapply IH; [| exact E]. exact I.
-  - destruct (valid_index (ix_val i) (Z.of_nat (length l))) eqn:V; [| discriminate].
-    eapply IH; [| exact E]. exact I.
-  - destruct (valid_index (ix_val i) (Z.of_nat (length l))) eqn:V; [| discriminate].
-    eapply IH; [| exact E]. exact I.
 Qed.
 
 (* ---------------------------------------------------------------- whole programs *)
@@ -293,7 +271,7 @@ Proof. intros H. eapply static_sound; [| exact H]. reflexivity. Qed.
 (* the tracker before the repair rejects a valid history: let a := [1,2,3]; append(&'a, 4); a[3] *)
 Definition append_witness : prog :=
   {| p_str := []; p_init := [1; 2; 3];
-     p_ops := [OAppend 4; OGet {| ix_kind := KConst; ix_ty := I32; ix_val := 3 |}] |}.
+     p_ops := [OAppend 4; OGet {| ix_kind := KConst; ix_ty := I32; ix_val := 3; ix_path := PDirect |}] |}.
 
 Lemma stale_tracker_misrejects :
   static_ops_stale (Some 3) (p_ops append_witness) = false /\ spec_run append_witness = ([4], Exited) /\
@@ -305,10 +283,10 @@ Proof. vm_compute. repeat split; reflexivity. Qed.
 Definition grow_witness : prog :=
   {| p_str := []; p_init := [1; 2; 3];
      p_ops := [OCallGrow [40; 50];
-               OGet {| ix_kind := KConst; ix_ty := I32; ix_val := 3 |};
-               OGet {| ix_kind := KConst; ix_ty := I32; ix_val := -5 |};
-               OSet {| ix_kind := KConst; ix_ty := I32; ix_val := 4 |} 51;
-               OGet {| ix_kind := KConst; ix_ty := I32; ix_val := 4 |}] |}.
+               OGet {| ix_kind := KConst; ix_ty := I32; ix_val := 3; ix_path := PDirect |};
+               OGet {| ix_kind := KConst; ix_ty := I32; ix_val := -5; ix_path := PDirect |};
+               OSet {| ix_kind := KConst; ix_ty := I32; ix_val := 4; ix_path := PDirect |} 51;
+               OGet {| ix_kind := KConst; ix_ty := I32; ix_val := 4; ix_path := PDirect |}] |}.
 
 Lemma byvalue_tracker_misrejects :
   static_ops_byvalue (Some 3) (p_ops grow_witness) = false /\ spec_run grow_witness = ([40; 1; 51], Exited) /\
@@ -328,19 +306,19 @@ Proof. split; reflexivity. Qed.
 Definition demo : prog :=
   {| p_str := [72; 101; 121]; p_init := [10; 20; 30];
      p_ops := [OAppend 40; OAppend 50;
-               OGet {| ix_kind := KConst; ix_ty := I32; ix_val := 4 |};
-               OGet {| ix_kind := KOpaque; ix_ty := I64; ix_val := -5 |};
-               OSet {| ix_kind := KOpaque; ix_ty := U64; ix_val := 3 |} 99;
-               OGet {| ix_kind := KConst; ix_ty := I8; ix_val := -2 |};
-               OSGet {| ix_kind := KOpaque; ix_ty := I16; ix_val := -1 |};
+               OGet {| ix_kind := KConst; ix_ty := I32; ix_val := 4; ix_path := PDirect |};
+               OGet {| ix_kind := KOpaque; ix_ty := I64; ix_val := -5; ix_path := PDirect |};
+               OSet {| ix_kind := KOpaque; ix_ty := U64; ix_val := 3; ix_path := PDirect |} 99;
+               OGet {| ix_kind := KConst; ix_ty := I8; ix_val := -2; ix_path := PDirect |};
+               OSGet {| ix_kind := KOpaque; ix_ty := I16; ix_val := -1; ix_path := PRef |};
                OLen;
                OCallGrow [60; 70];
                OCallGrow [];
-               OGet {| ix_kind := KConst; ix_ty := I32; ix_val := 6 |};
-               OCallSet {| ix_kind := KOpaque; ix_ty := I64; ix_val := -7 |} 11;
-               OCallGet {| ix_kind := KOpaque; ix_ty := U8; ix_val := 0 |};
+               OGet {| ix_kind := KConst; ix_ty := I32; ix_val := 6; ix_path := PDirect |};
+               OSet {| ix_kind := KOpaque; ix_ty := I64; ix_val := -7; ix_path := PMut |} 11;
+               OGet {| ix_kind := KOpaque; ix_ty := U8; ix_val := 0; ix_path := PFRef |};
                OCallLen;
-               OGet {| ix_kind := KOpaque; ix_ty := I64; ix_val := 4294967296 |};
+               OGet {| ix_kind := KOpaque; ix_ty := I64; ix_val := 4294967296; ix_path := PDirect |};
                OPrint 1] |}.
 
 Lemma demo_wf : prog_wf demo.
@@ -348,3 +326,26 @@ Proof. unfold prog_wf. vm_compute. repeat split; reflexivity. Qed.
 
 Lemma demo_runs : run demo = (true, [50; 10; 99; 121; 5; 70; 11; 7], Panicked) /\ spec_run demo = ([50; 10; 99; 121; 5; 70; 11; 7], Panicked).
 Proof. vm_compute. split; reflexivity. Qed.
+
+(* ---------------------------------------------------------------- the access path is irrelevant at run time *)
+
+Lemma exec_path_irrelevant mem : forall ops a c, exec mem (map direct_op ops) a c = exec mem ops a c.
+Proof.
+  induction ops as [| o r IH]; intros a c; [reflexivity |].
+  destruct o; cbn [map direct_op exec direct_idx ix_ty ix_val]; rewrite ?IH; try reflexivity.
+  - destruct (index_i32 (ix_ty i) (ix_val i) (rt_len a)); [| reflexivity].
+    destruct (rt_set a z v); [apply IH | reflexivity].
+  - destruct (index_i32 (ix_ty i) (ix_val i) (rt_len a)); [| reflexivity].
+    destruct (rt_get a z); [apply IH | reflexivity].
+  - destruct (index_i32 (ix_ty i) (ix_val i) (rt_strlen mem)); [apply IH | reflexivity].
+Qed.
+
+Lemma spec_path_irrelevant str : forall ops l out, spec str (map direct_op ops) l out = spec str ops l out.
+Proof.
+  induction ops as [| o r IH]; intros l out; [reflexivity |].
+  destruct o; cbn [map direct_op spec direct_idx ix_val]; rewrite ?IH; reflexivity.
+Qed.
+
+(* a non-direct path is never rejected at compile time and forgets the remembered length *)
+Lemma static_nondirect_get tr i r : is_direct i = false -> static_ops tr (OGet i :: r) = static_ops None r.
+Proof. intros H. cbn. now rewrite H. Qed.
